@@ -115,9 +115,9 @@ def successors(descs, all_prev, npool1, npool2, with_mp=True):
 
 
 def judge_chunk(args):
-    descs, want_conc = args
+    descs, light = args
     from . import bridge
-    lib = make_lib()
+    lib = make_lib(light=bool(light))
     h = par.harness()
     out = {'evals': 0, 'refused_construct': 0, 'refused_run': 0, 'accepted': 0, 'modules_verified': 0, 'opt_diverges': 0,
            'viol': [], 'ok': []}
@@ -310,7 +310,7 @@ def replay(path: str) -> int:
     print(v.get('what'))
     if d is None:
         return 1
-    out = judge_chunk(([d], None))
+    out = judge_chunk(([d], not (d[0] == 'lemma')))
     print({k: x for k, x in out.items() if k not in ('viol', 'ok')})
     for sig, _, what in out['viol']:
         print('still failing:', sig, what[:400])
@@ -338,19 +338,20 @@ def main(argv=None) -> int:
         for sig, d, what in out['viol']:
             chk.violation(sig, {'signature': sig}, what)
     # level 0 + lemmas
-    l0 = level0() + lemma_descs(5 if thorough else 4)
-    ok0 = merge(chk, par.pmap(judge_chunk, [(ch, None) for ch in par.chunks(l0, n)]), agg)
+    l0 = lemma_descs(5 if thorough else 4)
+    ok0 = merge(chk, par.pmap(judge_chunk, [(ch, False) for ch in par.chunks(l0, n)]), agg)
+    ok0 += merge(chk, par.pmap(judge_chunk, [(ch, True) for ch in par.chunks(level0(4), n)]), agg)
     levels = [len(ok0)]
     prim0 = [d for d in ok0 if d[0] != 'lemma']
     # level 1: every constructor on the primitives; instantiate/gen on a few lemma instances as well
-    lem_sample = [d for d in ok0 if d[0] == 'lemma'][::7]
-    l1 = successors(prim0, prim0, 12 if thorough else 7, 6 if thorough else 3)
+    lem_sample = [d for d in ok0 if d[0] == 'lemma' and d[1] in ('imp_refl', 'bot_elim', 'dneg_intro', 'absurd', 'peirce_bot', 'and_l_imp', 'con3')][::5]
+    l1 = successors(prim0, prim0, 12 if thorough else 9, 6 if thorough else 4)
     l1 += successors(lem_sample, [], 6, 3, with_mp=False)
-    ok1 = merge(chk, par.pmap(judge_chunk, [(ch, None) for ch in par.chunks(l1, n)]), agg)
+    ok1 = merge(chk, par.pmap(judge_chunk, [(ch, True) for ch in par.chunks(l1, n)]), agg)
     levels.append(len(ok1))
     # level 2: accepted level-1 expressions, distinct conclusions only (same conclusion -> same futures for mp/inst/gen)
     from . import bridge
-    lib = make_lib()
+    lib = make_lib(light=True)
     seen = set()
     rep1 = []
     for d in ok1:
@@ -361,9 +362,9 @@ def main(argv=None) -> int:
         if key not in seen:
             seen.add(key)
             rep1.append(d)
-    rep1 = rep1[:(600 if thorough else 60)]
+    rep1 = rep1[:(600 if thorough else 120)]
     l2 = successors(rep1, prim0 + rep1, 5 if thorough else 4, 0, with_mp=True)
-    ok2 = merge(chk, par.pmap(judge_chunk, [(ch, None) for ch in par.chunks(l2, n)]), agg)
+    ok2 = merge(chk, par.pmap(judge_chunk, [(ch, True) for ch in par.chunks(l2, n)]), agg)
     levels.append(len(ok2))
     agg['level2_representatives'] = len(rep1)
     pyrun.cleanup()
